@@ -99,7 +99,12 @@ object_t* mudlib_connect(int port, const char* addr) {
    */
   add_ref (master_ob, "mudlib_connect");
   push_number (port);
-  ret = apply_master_ob (APPLY_CONNECT, 1);
+  /* The new connection hangs on master_ob until connect() has named its user object. An
+   * error in connect() must come back here (it has been reported by then) and count as
+   * a rejection, so that the caller closes the connection: jumping to the backend loop
+   * would leave it attached to the master object, where the next connection overwrites
+   * master_ob->interactive and nothing can ever close it. */
+  ret = safe_apply_master_ob (APPLY_CONNECT, 1);
   /* master_ob->interactive can be zero if the master object self destructed in the above. */
   if (ret == 0 || ret == (svalue_t *) - 1 || ret->type != T_OBJECT || !master_ob->interactive)
     {
